@@ -72,7 +72,8 @@ UNIT_TRUSTED["table_policy"] = [
     "attrs_wf — precondition of Condition::evalute, Statement::apply, Policy::apply, PolicyAssignment::apply and preserved by them: an attribute with type code 2 holds a byte string (true of what Attribute::decode and the API conversion build; as_path_* and AsPathIter::new unwrap it)",
     "Condition::evalute: ip_network_table_deps_treebitmap::IpLookupTable modelled as a finite map (network address, length) -> value (lt4_view / lt6_view, uninterpreted); R11 helpers vx_lt4/6_matches_any (assumed: `matches(ip)` yields exactly the stored prefixes containing ip) and vx_lt4/6_longest_match (assumed: the longest of them; only used if the code calls it); 'contains' is defined on address octets (lt_masked_octet); packet::IpNet::contains uninterpreted here (decided by the C16 Kani harnesses); communities_from_attr / ext_ / large_ and the text forms of community values (`format!`) uninterpreted (vx_comm_strs / vx_ecomm_strs / vx_lcomm_strs outlined verbatim); the RPKI, route-type, afi-safi-in and next-hop arms are outlined verbatim (R11) as uninterpreted functions of what they read (Source identity is part of a Source's abstract value) — they are outside the property's text; derive(PartialEq) on MatchOption structural; #[verifier::loop_isolation(false)]",
     "Statement::apply: Arc::make_mut as a `&mut` into the vector the Arc owns afterwards (vx_arc_make_mut; copy-on-write invisible, Arc = value); Vec::retain / into_iter().filter().collect() keep exactly the elements satisfying the (verified) predicate, in order; Vec::contains / clone / extend_from_slice on u32, [u8; 8], (u32, u32, u32) structural (vx_contains / vx_vec_clone / vx_vec_extend); Option::copied, i64::saturating_add, i64::clamp as their std definitions; Attribute::new_with_value returns a value attribute with that code for codes 1, 4, 5 (canonical-flags table: Kani harness c05_canonical_flags_table); communities_to_attr / ext_ / large_ and Attribute::as_path_prepend / as_path_prepend_confed / empty_as_path uninterpreted with their type codes (the byte-level prepend functions are verified in unit packet_aspath); IpAddr and bgp::Nexthop mirrored transparently; rlimit(200) (about 20 s)",
-    "NOT under contract: the regular-expression members of an as-path set (known finding F-C14-4), prefix / neighbour sets with the ALL option (rejected by add_statement), the byte layout of community attributes, and the PolicyTable CRUD 'still referenced cannot be deleted' clause",
+    "PolicyTable: FnvHashMap::values() over the statements / policies outlined as vectors in an unspecified order (vx_stmt_values / vx_policy_values, assumed: exactly the stored values); String / str comparisons through references outlined (vx_string_eq, vx_string_eq_str, vx_str_eq: equality of the character sequences); Arc<str>::as_ref, Arc::clone = same value; add_defined_set and condition_kind_matches trusted with no contract; the tails of delete_statement / delete_policy (editing a statement / policy that is not in use) carry no functional contract, only panic-freedom and the in-use guard",
+    "NOT under contract: the regular-expression members of an as-path set (known finding F-C14-4), prefix / neighbour sets with the ALL option (rejected by add_statement), the byte layout of community attributes, and the in-use guards of delete_defined_set, add_defined_set (merge), add_statement / add_policy (existing object) and the daemon-side per-peer checks",
 ]
 
 UNIT_TRUSTED["packet_negotiate"] = [
@@ -135,7 +136,7 @@ UNIT_TRUSTED["packet_nlri"] = [
 ]
 
 # minimum number of functions that must produce obligations / of must-fail twins that must run
-FLOORS = {"daemon_fsm": 30, "daemon_gr": 4, "daemon_peer_tx": 9, "table_cmp": 20, "packet_validate": 1, "packet_parse": 1, "table_rpki": 5, "table_policy": 8, "daemon_export": 11, "packet_bmp": 6, "packet_mrt": 8, "packet_aspath": 11, "packet_encode": 4, "packet_nlri": 22, "daemon_restart": 7, "packet_negotiate": 1}
+FLOORS = {"daemon_fsm": 30, "daemon_gr": 4, "daemon_peer_tx": 9, "table_cmp": 20, "packet_validate": 1, "packet_parse": 1, "table_rpki": 5, "table_policy": 12, "daemon_export": 11, "packet_bmp": 6, "packet_mrt": 8, "packet_aspath": 11, "packet_encode": 4, "packet_nlri": 22, "daemon_restart": 7, "packet_negotiate": 1}
 TWIN_FLOORS = {"daemon_fsm": 8, "daemon_gr": 3, "daemon_peer_tx": 2, "table_cmp": 4, "packet_validate": 1, "packet_parse": 1, "table_rpki": 1, "table_policy": 1, "daemon_export": 1, "packet_bmp": 1, "packet_mrt": 1, "packet_aspath": 1, "packet_encode": 1, "packet_nlri": 1, "daemon_restart": 1, "packet_negotiate": 0}
 
 PLAN = {
